@@ -162,6 +162,15 @@ pub fn gen_str_value(c: &mut Choices) -> Vec<u8> {
 }
 
 pub fn gen_item(c: &mut Choices, depth: usize) -> Item {
+    if depth >= 3 && c.chance(8) {
+        // a deeply nested list (nothing in RLP or EIP-778 bounds the depth): 17..=60 levels around a small core
+        let levels = *c.pick(&[15usize, 16, 17, 18, 19, 33, 60]);
+        let mut it = if c.bool() { Item::List(vec![]) } else { Item::Str(vec![c.u8()]) };
+        for _ in 0..levels {
+            it = Item::List(vec![it]);
+        }
+        return it;
+    }
     if depth == 0 || !c.chance(90) {
         match c.below(4) {
             0 => Item::uint(gen_seq(c)),
@@ -1081,7 +1090,8 @@ pub fn finish(m: &Mutated, over: SignOver) -> Vec<u8> {
 // ---------------------------------------------------------------------------------------------
 // unsigned tampers (C01)
 
-pub const FIELD_TAMPERS: [&str; 23] = [
+pub const FIELD_TAMPERS: [&str; 24] = [
+    "seq-wrap",
     "value-alt-form",
     "sig-recid",
     "sig-der",
@@ -1126,6 +1136,21 @@ pub fn field_tamper(d: &Draft, which: &str, c: &mut Choices) -> Vec<u8> {
     match which {
         "resign-other-key" => {
             sig = sign_content(d.scheme, &other_secret, d.alt_signer, &d.content());
+        }
+        "seq-wrap" => {
+            // the signed number plus a multiple of 2^64 (or 2^32 for small numbers): a 9..=12-byte (5..=8-byte)
+            // sequence-number string whose low bytes are the signed value
+            let seq = rlp::decode_exact(&d.seq_raw).ok().and_then(|i| i.as_str().and_then(rlp::str_to_u64)).unwrap_or(1);
+            let mut s = seq.to_be_bytes().to_vec();
+            if c.chance(200) || seq > u32::MAX as u64 {
+                for _ in 0..c.range(1, 4) {
+                    s.insert(0, *c.pick(&[1u8, 0xff, 0x80]));
+                }
+            } else {
+                s = (seq as u32).to_be_bytes().to_vec();
+                s.insert(0, 1);
+            }
+            emitted.seq_raw = rlp::encode_str(&s);
         }
         "sig-over-seq-plus" | "sig-over-seq-minus" => {
             let seq = rlp::decode_exact(&d.seq_raw).ok().and_then(|i| i.as_str().and_then(rlp::str_to_u64)).unwrap_or(1);
